@@ -226,9 +226,16 @@ func runC12(c *Ctx) {
 		}
 		// one time in four the definitions are consecutive lines of ONE paragraph (each must still be recognised:
 		// a definition ends at its line ending, whatever follows), sometimes with a title on some of them
+		onePara := false
 		if rng.Intn(4) == 0 {
+			onePara = true
+			indentCont := rng.Intn(3) == 0
 			var para strings.Builder
-			for _, d := range defs {
+			for di, d := range defs {
+				if indentCont && di > 0 {
+					// up to three spaces of indentation on a continuation line are not part of the paragraph's content
+					para.WriteString(strings.Repeat(" ", 1+rng.Intn(3)))
+				}
 				para.WriteString("[" + d.label + "]: " + d.dest + rng.Pick([]string{"", "", " 't'", " \"one\""}) + "\n")
 			}
 			blocks = []string{para.String()}
@@ -267,6 +274,18 @@ func runC12(c *Ctx) {
 				if _, ok := res.refs[cm.VerifNormalizeLabel([]byte(strings.ReplaceAll(d.label, "\x00", "\ufffd")))]; ok {
 					wantDest, found = d.dest, true
 					break
+				}
+			}
+		}
+		// definitions written as consecutive lines of one top-level paragraph, with labels that are labels: EVERY one of
+		// them must have been recognised (its normal form is a key)
+		if onePara {
+			for _, d := range defs {
+				if k := normSpec(d.label); k != "-" {
+					if _, ok := res.refs[string(unhx(k))]; !ok {
+						c.report("definition-not-recognised", doc, "definition-docs", fmt.Sprintf("definition [%s]: %s is not in the map (expected key %q)", d.label, d.dest, unhx(k)), nil, nil)
+						break
+					}
 				}
 			}
 		}
